@@ -153,7 +153,7 @@ Fixpoint reg_ok (st : rgstate) (steps : list regstep) : bool :=
   | [] => true
   | GStep o obs :: r =>
     let st' := reg_apply st o in
-    (match o with GDial _ _ ok => ok | _ => true end) &&   (* registered => the replies arrive *)
+    (match o with GDial k id ok => Bool.eqb ok (snd (rgdial st k id)) | _ => true end) &&   (* accepted <=> the dial works and its replies arrive *)
     forallb (reg_obs_ok st') obs && reg_ok st' r
   end.
 
